@@ -36,6 +36,8 @@ type BufferedRows struct {
 	nullable  []*bool
 	lengths   []*int64
 	precision [][2]*int64
+	// the result sets after this one (a stored procedure, a multi-statement text), read as well
+	more []*BufferedRows
 }
 
 // BufferRows reads rows to their end, closes them and returns what they held. The error that ended the result, if
@@ -48,6 +50,29 @@ func BufferRows(rows driver.Rows) (driver.Rows, error) {
 		return rows, nil
 	}
 	defer rows.Close()
+	first, err := bufferResultSet(rows)
+	if err != nil {
+		return nil, err
+	}
+	if sets, ok := rows.(driver.RowsNextResultSet); ok {
+		for sets.HasNextResultSet() {
+			if err := sets.NextResultSet(); err == io.EOF {
+				break
+			} else if err != nil {
+				return nil, err
+			}
+			next, err := bufferResultSet(rows)
+			if err != nil {
+				return nil, err
+			}
+			first.more = append(first.more, next)
+		}
+	}
+	return first, nil
+}
+
+// bufferResultSet reads the result set rows stands at to its end
+func bufferResultSet(rows driver.Rows) (*BufferedRows, error) {
 	b := &BufferedRows{columns: append([]string(nil), rows.Columns()...)}
 	n := len(b.columns)
 	for i := 0; i < n; i++ {
@@ -99,6 +124,18 @@ func BufferRows(rows driver.Rows) (driver.Rows, error) {
 }
 
 func (b *BufferedRows) Columns() []string { return b.columns }
+
+func (b *BufferedRows) HasNextResultSet() bool { return len(b.more) > 0 }
+
+func (b *BufferedRows) NextResultSet() error {
+	if len(b.more) == 0 {
+		return io.EOF
+	}
+	next, rest := b.more[0], b.more[1:]
+	*b = *next
+	b.more = rest
+	return nil
+}
 
 func (b *BufferedRows) Close() error {
 	b.pos = len(b.rows)
